@@ -354,6 +354,7 @@ def shapes():
         "point-out": sg.Point(40, 40),
         "line": sg.LineString([(-1, 1.5), (6, 1.5)]),
         "line-diag": sg.LineString([(0, 0), (3, 3)]),
+        "line-far": sg.LineString([(500000, 0), (500000, 9000000)]),
         "ring": sg.LinearRing([(0, 0), (2, 0), (2, 2), (0, 0)]),
         "polygon": sg.Polygon(sq(0, 0, 4)),
         "polygon-far": sg.Polygon(sq(10, 10, 2)),
@@ -783,12 +784,12 @@ def p_geobox(opname, ta, tb, shift=(2, -1), shape_b=(3, 3)):
     return True, ""
 
 
-def p_split(ta, tb):
+def p_split(ta, tb, ka="polygon", kb="line"):
     from odc.geo.crs import CRSMismatchError
     from odc.geo.geom import Geometry
     from shapely import ops as sops
     T, S = tags(), shapes()
-    A, B = Geometry(S["polygon"], crs_obj(T, ta)), Geometry(S["line"], crs_obj(T, tb))
+    A, B = Geometry(S[ka], crs_obj(T, ta)), Geometry(S[kb], crs_obj(T, tb))
     differ = tag_differs(T, tb, ta)
     try:
         got = list(A.split(B))
@@ -796,7 +797,10 @@ def p_split(ta, tb):
         return differ, "" if differ else "CRSMismatchError although the CRSs are equal"
     if differ:
         return False, f"returned {got!r} for a splitter in a different CRS"
-    want = list(sops.split(S["polygon"], S["line"]).geoms)
+    try:
+        want = list(sops.split(S[ka], S[kb]).geoms)
+    except Exception:        # shapely itself refuses this geometry/splitter pair: only the CRS clause is judged
+        return True, "raw split undefined"
     ok = [g.geom.wkb for g in got] == [w.wkb for w in want] and all(g.crs is A.crs for g in got)
     return ok, f"returned {got!r}"
 
@@ -859,7 +863,7 @@ PREDICATES = {"pair": p_pair, "nary": p_nary, "geobox": p_geobox, "split": p_spl
               "history": p_history}
 
 
-def search(out, tier, offenders):
+def search(out, tier, offenders, disagreeing=()):
     rng = core.rng("c01-search")
     found = set()
 
@@ -881,6 +885,9 @@ def search(out, tier, offenders):
 
     for rp in core.corpus(ID):
         run(rp["predicate"], *rp["args"])
+    # inputs on which model and implementation disagreed: judge them with the property itself
+    for name, args in disagreeing:
+        run(name, *args)
     # functions that the static scan could not place: call them on a mixed pair
     for qual in offenders:
         run("call_mixed", qual)
@@ -892,6 +899,10 @@ def search(out, tier, offenders):
                 run("pair", name, ta, tb, rng.choice(kinds), rng.choice(kinds))
     for ta, tb in itertools.product(TAG_IDS, TAG_IDS):
         run("split", ta, tb)
+        # splitters that do not touch the geometry (the usual mixed-CRS situation), multi-part inputs
+        for ka, kb in (("polygon-far", "line"), ("multipolygon", "line"), ("polygon", "line-far"), ("multipolygon", "line-far"),
+                       ("multiline", "line-far"), ("line-diag", "point-out")):
+            run("split", ta, tb, ka, kb)
         for op in ("or", "and", "overlap_roi", "snap_to", "pixel_translation", "bounding_box_in_pixel_domain", "union3", "intersection3"):
             run("geobox", op, ta, tb)
             # identical affine (zero shift), same and different shape: no shortcut may bypass the CRS test
@@ -922,6 +933,9 @@ def search(out, tier, offenders):
                         tl = list(same)
                         tl[pos] = odd
                         run("nary", fname, tl, [rng.choice(polys) for _ in tl])
+                        if n >= 3 and pos >= 2:
+                            # the operands before the odd one are already disjoint (empty running result)
+                            run("nary", fname, tl, ["polygon", "polygon-far"] + [rng.choice(polys + ["polygon-far"]) for _ in tl[2:]])
 
 
 # ---------------------------------------------------------------- entry points
@@ -1016,7 +1030,15 @@ def run(out, tier, scratch):
     if fails:
         detail = "model and implementation differ on: " + " | ".join(f"{notes[i]} :: {cases[i][-260:]}" for i in fails[:5])
     out.oblige("correspondence:Model.CrsGate vs odc.geo.geom / odc.geo.geobox", "correspondence", not fails, detail)
-    search(out, tier, offenders)
+    nary = {"unary_union", "unary_intersection", "multigeom", "common_crs", "bbox_union", "bbox_intersection"}
+    disagreeing = []
+    for i in fails[:300]:
+        nt = notes[i]
+        if isinstance(nt, tuple) and nt and nt[0] in nary and len(nt) == 3 and nt[1]:
+            disagreeing.append(("nary", [nt[0], list(nt[1]), list(nt[2])]))
+        elif isinstance(nt, tuple) and nt and nt[0] == "split":
+            disagreeing.append(("split", list(nt[1:5])))
+    search(out, tier, offenders, disagreeing)
 
 
 def replay(rp) -> int:
